@@ -23,6 +23,9 @@ fn ops_pow<C: NatCtx>(v: &mut Env<C>, a: &BigUint, x: &BigUint) {
     let (ea, ex) = (v.e(a), v.x(x));
     let ctx = v.ctx.clone();
     v.case("epow", vec![n(a), n(x)], || Out::Ok(Val::Nat(C::e_val(&ctx.emod_pow(&ea, &ex)))));
+    // the Element-trait method with the modulus passed explicitly
+    let pm = v.e(&v.p);
+    v.case("epow", vec![n(a), n(x)], || Out::Ok(Val::Nat(C::e_val(&ea.mod_pow(&ex, &pm)))));
 }
 fn ops_exp<C: NatCtx>(v: &mut Env<C>, x: &BigUint, y: &BigUint) {
     let (ex, ey) = (v.x(x), v.x(y));
